@@ -27,6 +27,9 @@ CHECKS = {
  "C07": ("exhaustive enumeration of (argument shape x self-override mode x override relation) x all occurrence sequences up to a length bound, plus every repeat count 0..300, against a fold-by-action reference model",
          "7 shapes of the argument under test (Set/Append option, Count/SetTrue/SetFalse flag, Set/Append multi-value positional) x 3 self-override modes x 8 override relations among three arguments (incl. two overriders of one target) x every sequence of <=4 (quick) / <=6 (thorough) occurrences over {x(v1), x(v2), y, z}; Count additionally for every n in 0..=300, spelled as separate tokens and as one cluster, with a foreign flag at start/middle/end. Typed results (get_one/get_occurrences/get_count/get_flag, value_source) and ArgumentConflict rejections must equal the fold-by-action reference in both directions.",
          "Trusted: the fold reference in checks/src/bin/c07.rs (override acts in both directions at each occurrence; removal restarts a count). Append combined with an explicit overrides_with(self) is not enumerated (pinned by neither property nor documentation).", "DESIGN.md §4 C07"),
+ "C06": ("exhaustive cross product of origin features on one argument (kind x default x default_value_if x default_missing x env state x one relation) x all token sequences up to a bound, against a source-lattice reference model",
+         "Every applicable configuration of the argument under test (5 kinds x default x 5 conditional-default variants x default_missing x 4 environment states x 13 relations/settings incl. ignore_errors recovery and global+subcommand; ~2.2k thorough) x every sequence of <=3 (quick) / <=4 (thorough) distinct tokens. Expected origin, value and value_source come from the lattice command line > environment > conditional default > default > absent; presence clauses check that defaults never trigger or satisfy conflicts/requirements/arg_required_else_help while environment values do, and that a command-line value is never displaced by a non-command-line origin.",
+         "Trusted: lattice function r3() and presence clauses in checks/src/bin/c06.rs; fixed process environment (fix_env). Not pinned (excluded): repeated Set arguments (C07), a global supplied at two levels (C09), conditional defaults of a global evaluated per level, explicit defaults on flags.", "DESIGN.md §4 C06"),
 }
 PENDING_REASON = "check not built yet in this round (design in DESIGN.md §4); will be claimed when its checker exists"
 props = [json.loads(l) for l in open('/verif/properties.jsonl')]
